@@ -233,8 +233,8 @@ theorem update_refines (items : List (Path × Entry)) (kids : Kids) :
 /-- One step. FULL STATEMENT (not yet proved for every operation):
       ∀ op, InScope t op → step t op ≈ dstep t op      with `dstep` defined for all thirteen operations.
     Proved here for set / del / pop / rename_key_ / setdefault / clear / empty / unflatten_keys (in place and out of
-    place) / flatten_keys (out of place) / exclude (in place and out of place) / update.
-    (`InScope` is `False` for select, flatten_keys in place, split_keys: their transcriptions are tied to the code by
+    place) / flatten_keys (in place and out of place) / exclude (in place and out of place) / update.
+    (`InScope` is `False` for select and split_keys: their transcriptions are tied to the code by
     the correspondence run and judged by the Python dict oracle; select is characterised separately by
     `select_leaves_exact` / `select_inplace_agrees`, which speak about leaves rather than about the whole state because a
     non-strict select keeps empty nested tensordicts for keys whose tails are all missing). -/
@@ -273,10 +273,13 @@ theorem refines_partial (kids : Kids) (hw : WF (.node kids)) (op : Op) (hs : InS
     simp only [step, dstep, excludeT_refines keys inplace kids hw hs]
     cases inplace <;> simp
   | flatten sep inplace =>
-    have hi : inplace = false := hs
-    subst hi
-    simp only [step, dstep, Bool.false_eq_true, if_false, flattenOut_eq]
-    by_cases hn : (flatNames sep (.node kids)).Nodup <;> simp [hn, Out.erase]
+    cases inplace with
+    | false =>
+      simp only [step, dstep, Bool.false_eq_true, if_false, flattenOut_eq]
+      by_cases hn : (flatNames sep (.node kids)).Nodup <;> simp [hn, Out.erase]
+    | true =>
+      simp only [step, dstep, if_true, flattenIn_eq sep kids hw]
+      by_cases hn : (flatNames sep (.node kids)).Nodup <;> simp [hn, Out.erase]
   | unflatten sep inplace => exact unflatten_refines sep inplace kids hw
   | split _ _ _ => exact absurd hs (by simp [InScope])
 
@@ -377,10 +380,13 @@ theorem dstep_good (kids : Kids) (hw : WF (.node kids)) (op : Op) (hs : InScope 
       rw [specExclude_eq_sx keys kids hw hs]
       exact ⟨_, rfl, wf_sx _ _ hw⟩
   | flatten sep inplace =>
-    have hi : inplace = false := hs
-    subst hi
     simp only [dstep]
-    split <;> exact ⟨kids, rfl, hw⟩
+    by_cases hn : (flatNames sep (.node kids)).Nodup
+    · simp only [hn, if_true]
+      cases inplace with
+      | false => exact ⟨kids, rfl, hw⟩
+      | true => exact ⟨_, rfl, wf_flatKids sep kids hw hn⟩
+    · simp only [hn, if_false]; exact ⟨kids, rfl, hw⟩
   | unflatten sep inplace =>
     obtain ⟨kids', hk', hw'⟩ := specUnflattenLoop_good sep (rootKeys (.node kids)) kids hw
     simp only [dstep, specUnflatten]
@@ -452,6 +458,14 @@ theorem flatten_collision_detected (sep : String) (t : Entry) :
     (∃ e, flattenOut sep t = .error e) ↔ ¬ (flatNames sep t).Nodup := by
   rw [flattenOut_eq]
   by_cases h : (flatNames sep t).Nodup <;> simp [h]
+
+/-- `flatten_keys(sep, inplace=True)` (repaired): popping every leaf, excluding what is left and writing the flat names
+yields exactly what the out-of-place variant returns — root-level leaves included, whatever the insertion order of the
+entries — or refuses on a name clash without touching anything. -/
+theorem flatten_inplace_eq_outplace (sep : String) (kids : Kids) (hw : WF (.node kids)) :
+    flattenIn sep (.node kids) =
+      if (flatNames sep (.node kids)).Nodup then (.node (flatKids sep (.node kids)), .ok) else (.node kids, .err .key) :=
+  flattenIn_eq sep kids hw
 
 /-- …and when it succeeds the flat dict holds exactly the leaves of the nested dict (tensors and non-tensors;
 empty nested tensordicts disappear), each under its joined name, with its value. -/
@@ -536,6 +550,20 @@ theorem views_agree_items_nested (lo srt nt : Bool) (kids : Kids) (hw : WF (.nod
   cases srt with
   | false => simpa [itemsView] using h'
   | true => simp only [itemsView, if_true]; rw [mem_sortBy]; exact h'
+
+/-- no key is listed twice by `keys(include_nested=True, …)` (so `len(td.keys(True, …))` counts the bound paths), sorted or not -/
+theorem views_no_duplicates (lo srt nt : Bool) (kids : Kids) (hw : WF (.node kids)) :
+    (keysView ⟨true, lo, srt, nt⟩ (.node kids)).Nodup := by
+  have h : (iterHelper lo nt (.node kids) []).Nodup := by simp only [iterHelper]; exact iterHelper_go_nodup lo nt kids [] hw
+  cases srt with
+  | false => simpa [keysView] using h
+  | true => simp only [keysView, if_true]; exact (sortBy_perm _ _).nodup_iff.mpr h
+
+/-- `is_empty()` is true exactly when no tensor / non-tensor is bound anywhere below: empty nested tensordicts do not count
+(the documented meaning: "contains no leaf") -/
+theorem is_empty_iff (kids : Kids) (hw : WF (.node kids)) :
+    isEmpty (.node kids) = true ↔ ∀ p e, bound p e kids → e.isLeafFor true = false :=
+  isEmpty_iff kids hw
 
 /-- keys and items agree: a key is listed iff an item with that key is (same flags) — although the two
 views are produced by different traversals (children-first vs entry-first). -/
